@@ -259,7 +259,7 @@ pub fn run() -> i32 {
                                 let want: Vec<&str> = if e.contains(&'A') { vec!["InA", "InA2", "After", "Last"] } else { vec!["NotA", "After", "Last"] };
                                 if names != want { rep.counterexample(&label, &format!("{want:?}"), &format!("{names:?}")); }
                                 else if !problems.is_empty() { rep.counterexample(&label, "every surviving element at its original line and column", &problems.join("; ")); }
-                                else if diags != vec![("E033".to_owned(), Some("Missing".to_owned()))] { rep.counterexample(&label, "one E033 whose span covers `Missing`", &format!("{diags:?}")); }
+                                else if !(diags.len() == 1 && diags[0].1.as_deref().is_some_and(|t| t.contains("Missing") && !t.contains('\n'))) { rep.counterexample(&label, "one error whose span covers `Missing` on its own line", &format!("{diags:?}")); }
                             }
                         }
                     }
